@@ -60,6 +60,7 @@ static struct {
     uint8_t key[48], tweak[16], counter[16];
     int ksoff, defined;
     int nkey, ntweak, nctr, seg2, consumed, nreconf, nafter, exotic, keyidx, unkeyed_enc, postclean, nenc;
+    int followup;      /* 1: a long request just ended the explored part of the stream, one short request may follow it; 2: it did */
     /* --- fields below are not part of the canonical state --- */
     uint64_t pos;      /* absolute stream position for the input pattern */
     uint8_t ks[16]; int ksvalid;   /* lazily computed keystream of the current block */
@@ -241,8 +242,11 @@ static int w_enabled(int opi)
         if (W.nreconf) return W.nafter < (tier_thorough() ? 2 : 1) && (o->a == 1 || o->a == g_bs || o->a == g_maxbatch + 1) && o->b == 0;
         if (g_mode == MODE_C06) return (W.nenc < 1 || (W.nenc < 2 && W.consumed <= g_bs + 1)) && o->b == 0;   /* the defined regime itself is C05's business */
         if (cur_bound() == g_bs + 2 && !(o->a == 1 || o->a == g_bs || o->a == g_bs + 1)) return 0;
+        /* after a long single request (several batches, ending inside one): one short request more, which has to pick up
+         * exactly the keystream the long one left behind */
+        if (W.consumed >= cur_bound()) return g_mode == MODE_C05 && W.followup == 1 && (o->a == 1 || o->a == g_bs + 1 || o->a == g_maxbatch - 1) && o->b == 0;
         if (W.consumed >= g_bs + 2 && W.consumed + o->a > cur_bound() + g_maxbatch) return 0;   /* long pieces only from early states */
-        return W.consumed < cur_bound();
+        return 1;
     case T_CLEANUP:
         if (g_mode == MODE_C05) return 0;
         return W.phase != PH_UNINIT ? (W.phase == PH_LIVE ? (W.consumed < g_bs + 2) : W.postclean < 1) : 1;
@@ -448,7 +452,9 @@ static void w_apply(int opi, int check)
                     if (!o->b && outbuf[i][len] != 0xEE) report("overrun", opi, "wrote past the output length on %s", be_name(g_be[i]));
                 }
             }
-            W.consumed += len; W.pos += (uint64_t)len; if (g_mode == MODE_C06) ++W.nenc;
+            { int was_over = W.consumed >= cur_bound();
+              W.consumed += len; W.pos += (uint64_t)len; if (g_mode == MODE_C06) ++W.nenc;
+              if (was_over) W.followup = 2; else if (W.consumed >= cur_bound() && len >= 3 * g_maxbatch && !W.followup) W.followup = 1; }
             if (W.nreconf) ++W.nafter;
         } else if (W.phase == PH_LIVE) {
             ++W.unkeyed_enc;
